@@ -217,6 +217,11 @@ def run_impl(case, rows=None, kind=None):
         res["msg"] = str(e)[:200]
         res["mutated"] = not same_py(before, [dict(i) for i in inter])
         return res
+    return finish_run(res, out, base, before, inter)
+
+
+def finish_run(res, out, base, before, inter):
+    """canonical observable of one run: contexts, other fields vs. the baseline, input mutation"""
     res["n"] = len(out)
     res["out"] = [canon_context(o["context"]) if "context" in o else "nocontext" for o in out]
     others_ok = len(out) == len(base)
@@ -240,6 +245,82 @@ def run_impl(case, rows=None, kind=None):
     res["others_bad"] = bad
     res["mutated"] = not same_py(before, [dict(i) for i in inter])
     return res
+
+
+def _mem_env(items):
+    from coba.primitives import Environment
+
+    class _Env(Environment):
+        def __init__(self, its):
+            self._items = its
+
+        def read(self):
+            return self._items
+
+        @property
+        def params(self):
+            return {}
+
+    return _Env(items)
+
+
+def sub_cases(case):
+    """the single-sequence cases of a sequence case (shared configuration, own table)"""
+    cfg = {k: v for k, v in case.items() if k not in ("seq", "mode", "read_order")}
+    return [dict(cfg, **sub) for sub in case["seq"]]
+
+
+def run_seq(case):
+    """ONE filter object applied to several different sequences one after the other (mode 'reuse'), or
+    Environments([envA, envB, ..]).scale/impute read in the order `read_order` (mode 'envs').
+    returns [(index of the sub-case, result as run_impl)] in execution order"""
+    import warnings
+    warnings.filterwarnings("ignore")
+    subs = sub_cases(case)
+    inters = [make_interactions(sc) for sc in subs]
+    order = case.get("read_order") or list(range(len(subs)))
+    results = []
+    envs = None
+    flt = None
+    setup_err = None
+    try:
+        if case["mode"] == "envs":
+            from coba.environments import Environments
+            envs = Environments([_mem_env(it) for it in inters])
+            if case["op"] == "scale":
+                kw = {}
+                if case.get("using") is not None:
+                    kw["using"] = case["using"]
+                envs = envs.scale(param_py(case["shift"]), param_py(case["scale"]), **kw)
+            else:
+                stats = case["stats"] if len(case["stats"]) > 1 else case["stats"][0]
+                envs = envs.impute(stats, case["ind"], case.get("using"))
+        else:
+            flt = make_filter(subs[0])
+    except Exception as e:  # noqa
+        setup_err = e
+    for idx in order:
+        inter = inters[idx]
+        before = copy.deepcopy([dict(i) for i in inter])
+        res = {}
+        try:
+            if setup_err is not None:
+                raise setup_err
+            if envs is not None:
+                from coba.environments import Environments
+                base = list(Environments(_mem_env(inter))[0].read())
+                out = list(envs[idx].read())
+            else:
+                base = inter
+                out = list(flt.filter(inter))
+        except Exception as e:  # noqa
+            res["err"] = type(e).__name__
+            res["msg"] = str(e)[:200]
+            res["mutated"] = not same_py(before, [dict(i) for i in inter])
+            results.append((idx, res))
+            continue
+        results.append((idx, finish_run(res, out, base, before, inter)))
+    return results
 
 
 # ------------------------------------------------------------------ exact reference (fractions)
@@ -740,7 +821,9 @@ class C11(Property):
             "the first interaction, constant / single-valued / nearly-constant columns, as dense (tuple or list), sparse (keys absent from "
             "rows, incl. the first) or scalar contexts; Scale with every shift (number,min,mean,median,med) x scale (number,minmax,std,iqr,maxabs), "
             "Impute with mean/median/mode x indicator and lists of statistics through Environments.impute; using in {None,1,<N,N,>N}; direct "
-            "filter or Environments.scale/impute; the same table is also run in the other container kinds (agreement). "
+            "filter or Environments.scale/impute; the same table is also run in the other container kinds (agreement); 20% of the cases "
+            "are 2-3 different sequences (values, feature counts, kinds) given to ONE filter object or ONE Environments([..]).scale/impute "
+            "call in a PRNG-chosen order, each judged against its own reference. "
             "non-trivial = at least one cell is pinned by the exact reference and at least one value changes; distinct by canonical JSON")
     trusted_base = [
         "values are ints / dyadic floats with few bits so min/max/median/iqr/mode are exact in double precision; results involving a division "
@@ -862,7 +945,43 @@ class C11(Property):
         return rng.choice(numbers)
 
     def generate(self, rng, tier):
-        op = "scale" if rng.chance(0.55) else "impute"
+        if rng.chance(0.2):
+            return self.generate_seq(rng, tier)
+        return self.generate_single(rng, tier)
+
+    def generate_seq(self, rng, tier):
+        """2-3 DIFFERENT sequences (own values, feature counts, container kinds) for one filter object ('reuse') or one
+        Environments([..]).scale/impute call ('envs'), handled in a PRNG-chosen order, possibly one of them twice"""
+        while True:
+            base = self.generate_single(rng, tier)
+            if base["rows"] and base["rows"][0] != "nocontext":
+                break
+        op = base["op"]
+        mode = "envs" if rng.chance(0.5) else "reuse"
+        table_keys = ("kind", "rows", "container", "itype")
+        subs = [{k: base[k] for k in table_keys if k in base}]
+        for _ in range(rng.choice([1, 1, 2])):
+            while True:
+                other = self.generate_single(rng, tier, op=op)
+                if other["rows"] and other["rows"][0] != "nocontext":
+                    break
+            subs.append({k: other[k] for k in table_keys if k in other})
+        case = {k: v for k, v in base.items() if k not in table_keys and k not in ("via", "stats_as_list")}
+        if op == "scale" and any(sc["kind"] == "sparse" for sc in subs) and rng.chance(0.7):
+            case["shift"] = V(0)
+        if op == "impute" and mode == "reuse":
+            case["stats"] = case["stats"][:1]
+        order = list(range(len(subs)))
+        for i in range(len(order) - 1, 0, -1):
+            j = rng.below(i + 1)
+            order[i], order[j] = order[j], order[i]
+        if rng.chance(0.3):
+            order.append(rng.choice(order))       # one sequence is read again later
+        case.update(seq=subs, mode=mode, read_order=order)
+        return case
+
+    def generate_single(self, rng, tier, op=None):
+        op = op or ("scale" if rng.chance(0.55) else "impute")
         n, m, cols = self.gen_table(rng, op)
         kind = rng.choice(["dense", "dense", "sparse", "sparse", "scalar"])
         case = {"op": op, "kind": kind, "using": self.gen_using(rng, n), "via": "env" if rng.chance(0.3) else "filter",
@@ -955,6 +1074,23 @@ class C11(Property):
             for st in ("mean", "median", "mode"):
                 for ind in (False, True):
                     cs.append({"op": "impute", "kind": kind, "rows": rows, "stats": [st], "ind": ind, "using": None, "via": "filter", "itype": "log"})
+        # one filter object / one Environments call over several different sequences
+        A = [[n(0), n(10)], [n(5), n(20)], [n(10), n(30)]]
+        B = [[n(100), n(-4)], [n(300), n(0)], [n(200), n(4)], [n(500), n(2)]]
+        C3 = [[n(1), n(2), n(7)], [n(4), n(8), n(9)]]
+        dA, dB, dC = ({"kind": "dense", "container": "tuple", "rows": r, "itype": "sim"} for r in (A, B, C3))
+        sS = {"kind": "scalar", "rows": [n(3), None, n(9), n(5)], "itype": "log"}
+        sP = {"kind": "sparse", "rows": [[["a", n(2)]], [["a", n(6)], ["b", n(1)]], [["b", None]]], "itype": "sim"}
+        for mode in ("reuse", "envs"):
+            for order in ([0, 1], [1, 0], [0, 1, 0]):
+                for using in (None, 2):
+                    cs.append({"op": "scale", "shift": "min", "scale": "minmax", "using": using, "mode": mode, "seq": [dA, dB], "read_order": order})
+                    cs.append({"op": "scale", "shift": n(0), "scale": "maxabs", "using": using, "mode": mode, "seq": [dB, sP, dC], "read_order": order + [2]})
+                    cs.append({"op": "scale", "shift": "mean", "scale": "std", "using": using, "mode": mode, "seq": [sS, dC, dA], "read_order": order + [2]})
+                    for st in ("mean", "median", "mode"):
+                        cs.append({"op": "impute", "stats": [st], "ind": True, "using": using, "mode": mode,
+                                   "seq": [sS, {"kind": "dense", "container": "list", "rows": [[n(1), None], [None, n(4)], [n(3), n(4)]], "itype": "sim"}, sP],
+                                   "read_order": order + [2]})
         # string scalar / string feature with a missing first value
         cs.append({"op": "impute", "kind": "scalar", "rows": [V("a"), None, V("b"), V("c")], "stats": ["median"], "ind": False, "using": None, "via": "filter", "itype": "sim"})
         cs.append({"op": "impute", "kind": "dense", "rows": [[None, n(1)], [V("a"), None], [V("b"), n(2)], [V("c"), n(2)]], "stats": ["median"], "ind": True, "using": None, "via": "filter", "itype": "sim"})
@@ -1021,6 +1157,42 @@ class C11(Property):
 
     # ---- evaluation
     def evaluate(self, case, driver):
+        if "seq" in case:
+            return self.evaluate_seq(case, driver)
+        return self.evaluate_single(case, driver)
+
+    def evaluate_seq(self, case, driver):
+        """the same filter object / the same Environments.scale|impute call over several different sequences:
+        every sequence is judged against ITS OWN reference and model"""
+        subs = sub_cases(case)
+        runs = run_seq(case)
+        fails, tags = [], ["seq:" + case["mode"], "seq:n=%d" % len(subs), "seq:reads=%d" % len(runs)]
+        kinds = sorted(set(sc["kind"] for sc in subs))
+        tags.append("seq:kinds=" + "+".join(kinds))
+        nontrivial, impls, models = False, [], []
+        for pos, (idx, impl) in enumerate(runs):
+            sc = dict(subs[idx], via="env" if case["mode"] == "envs" else "filter")
+            out = self.evaluate_single(sc, driver, impl=impl, in_seq=True)
+            if pos > 0 and any(f["kind"] in ("A", "B") for f in out["fails"]):
+                # does the same sequence pass on a fresh object?  then state was carried over from an earlier sequence
+                alone = self.evaluate_single(dict(sc, via="filter"), driver, in_seq=True)
+                if not any(f["kind"] in ("A", "B") for f in alone["fails"]):
+                    first = [f for f in out["fails"] if f["kind"] in ("A", "B")][0]
+                    what = ("sequence #%d (%s, read %d of %d) is handled correctly by a fresh %s but not when the same %s was used on "
+                            "other sequences before: %s" % (idx, sc["kind"], pos + 1, len(runs), case["op"],
+                                                             "Environments.%s(...) collection" % case["op"] if case["mode"] == "envs" else "filter object",
+                                                             first["what"]))
+                    out["fails"] = [f for f in out["fails"] if f["kind"] not in ("A", "B")] + \
+                                   [F("B", what, "%s-state-carried-between-sequences" % case["op"])]
+            for f in out["fails"]:
+                fails.append(F(f["kind"], "[read %d = sequence #%d] %s" % (pos + 1, idx, f["what"]), f["sig"]))
+            tags += [t for t in out["tags"] if t.startswith(("A-skipped", "raises:", "pinned"))]
+            nontrivial = nontrivial or out["nontrivial"]
+            impls.append(impl)
+            models.append(out.get("model"))
+        return {"fails": fails, "nontrivial": bool(nontrivial and len(runs) > 1), "tags": tags, "impl": impls, "model": models}
+
+    def evaluate_single(self, case, driver, impl=None, in_seq=False):
         fails, tags = [], []
         kind, rows = case["kind"], case["rows"]
         op = case["op"]
@@ -1034,7 +1206,8 @@ class C11(Property):
             tags.append("scale:" + (case["scale"] if isinstance(case["scale"], str) else "number"))
         else:
             tags.append("stats:" + "+".join(case["stats"]) + (":ind" if case["ind"] else ""))
-        impl = run_impl(case)
+        if impl is None:
+            impl = run_impl(case)
         if "err" in impl:
             tags.append("raises:" + impl["err"])
         if not rows or rows[0] == "nocontext":
@@ -1068,7 +1241,7 @@ class C11(Property):
                 ref.check_impute(case["stats"])
         fails += ref.fails
         tags += sorted(ref.tags)
-        if op == "impute" and len(case["stats"]) > 1 and "out" in impl and not any(f["sig"] == "impute-list-only-last-applied" for f in fails):
+        if op == "impute" and len(case["stats"]) > 1 and "out" in impl and not in_seq and not any(f["sig"] == "impute-list-only-last-applied" for f in fails):
             # (B) a list of statistics is applied in order: the same as chaining single-statistic calls (on the implementation itself)
             chain = run_impl(dict(case, chain=True))
             if chain.get("out") != impl["out"]:
@@ -1083,7 +1256,7 @@ class C11(Property):
                            "A:input-mutated:%s" % op))
         main_b_failed = any(f["kind"] == "B" for f in fails)
         # (B) agreement of the container kinds: the same table as dense / sparse / scalar contexts must meet the same reference
-        for tkind, trows in self.twins(case):
+        for tkind, trows in ([] if in_seq else self.twins(case)):
             star = tkind.endswith("*")
             tk = tkind.rstrip("*")
             tcase = dict(case, kind=tk, rows=trows, via="filter")
@@ -1238,6 +1411,31 @@ class C11(Property):
 
     # ---- shrinking
     def shrink(self, case):
+        if "seq" in case:
+            yield from self.shrink_seq(case)
+            return
+        yield from self.shrink_single(case)
+
+    def shrink_seq(self, case):
+        subs, order = case["seq"], case.get("read_order") or list(range(len(case["seq"])))
+        if len(order) > 1:
+            for p in range(len(order) - 1, -1, -1):
+                yield dict(case, read_order=order[:p] + order[p + 1:])
+        for i in range(len(subs) - 1, -1, -1):
+            if len(subs) > 1 and i not in order:
+                yield dict(case, seq=subs[:i] + subs[i + 1:], read_order=[o - 1 if o > i else o for o in order])
+        if case.get("using") is not None:
+            yield dict(case, using=None)
+        if case["mode"] == "envs":
+            yield dict(case, mode="reuse", stats=case["stats"][:1]) if case["op"] == "impute" else dict(case, mode="reuse")
+        cfg = {k: v for k, v in case.items() if k not in ("seq", "mode", "read_order")}
+        for i, sub in enumerate(subs):
+            for c in self.shrink_single(dict(cfg, **sub)):
+                if any(c.get(k) != cfg.get(k) for k in cfg):
+                    continue          # only the table is shrunk here
+                yield dict(case, seq=subs[:i] + [{k: c[k] for k in ("kind", "rows", "container", "itype") if k in c}] + subs[i + 1:])
+
+    def shrink_single(self, case):
         rows = case["rows"]
         kind = case["kind"]
         n = len(rows)
@@ -1283,6 +1481,13 @@ class C11(Property):
                     yield dict(case, rows=rows[:i] + [nr] + rows[i + 1:])
 
     def snippet(self, case):
+        if "seq" in case:
+            return ("import sys, os, json; sys.path[:0] = [os.environ.get('COBA_REPO', '/repo'), '/verif/harness']\n"
+                    "from props.c11 import run_seq, sub_cases, make_interactions\n"
+                    "case = json.loads(%r)\n"
+                    "# mode 'reuse': ONE Scale/Impute object filters the sequences in read_order; 'envs': Environments([..]).scale/impute\n"
+                    "for i, sc in enumerate(sub_cases(case)): print('sequence', i, [x.get('context') for x in make_interactions(sc)])\n"
+                    "for idx, res in run_seq(case): print('read of sequence', idx, '->', res)\n" % json.dumps(case))
         return ("import sys, os, json; sys.path[:0] = [os.environ.get('COBA_REPO', '/repo'), '/verif/harness']\n"
                 "from props.c11 import run_impl, make_interactions\n"
                 "case = json.loads(%r)\n"
